@@ -246,3 +246,37 @@ func VerifH_ReaderNoProgress() {
 		vrt.Cover("noprogress-ok")
 	}
 }
+
+// VerifH_ReaderLongVarintHeader: a valid packet followed by a frame header in which one of
+// the three varints (chosen symbolically) is ten bytes long: either a legal 64-bit value
+// (nine continuation bytes + final byte) or malformed (ten continuation bytes). The
+// reader must agree with the reference under symbolic chunking: malformed => protocol
+// error as soon as the bytes are there (never "need more"), huge length => need-more
+// followed by the transport's error or overflow, never a panic.
+func VerifH_ReaderLongVarintHeader() {
+	stream := AppendFrame(nil, Frame{ID: ID{Stream: 1, Message: 1}, Kind: KindMessage, Done: true, Data: []byte{7}})
+	which := vrt.Choice("which", 3)
+	hdr := []byte{vrt.U8("ctrl")}
+	for f := 0; f < 3; f++ {
+		if f == which {
+			for i := 0; i < 9; i++ {
+				b := vrt.U8("cont")
+				vrt.Assume(b >= 0x80)
+				hdr = append(hdr, b)
+			}
+			hdr = append(hdr, vrt.U8("last")) // >= 0x80 => malformed
+		} else {
+			b := vrt.U8("short")
+			vrt.Assume(b < 0x80 && b >= 1)
+			hdr = append(hdr, b)
+		}
+	}
+	stream = append(stream, hdr...)
+	stream = append(stream, vrt.Bytes("tail", 2)...)
+	max := vrt.Int("max")
+	vrt.Assume(max >= 1 && max <= 3)
+	sr := &scriptReader{data: stream, finalErr: io.EOF}
+	sr.cuts = vrt.Param("cuts", 1)
+	sr.bytewise = vrt.Bool("bytewise")
+	compareWithReference(stream, max, sr, 3)
+}
